@@ -179,6 +179,20 @@ CLAIMED = {
         "the prompt is user-chosen (only the name-mode parent rule applies).",
         "DESIGN.md §7 C06",
     ),
+    "C03": (
+        "Lean 4 decision-logic theorems over the pipeline model and the tables extracted from cli.py (exit codes and except order, prompt options): prompt prefixes unambiguous and case-insensitive, manual answer = flag, custom path guarded, ignore never stops, override replaces exactly + instrumented runs with the documented outcome of each strategy recomputed from snapshots",
+        "Proved in Lean over tables re-extracted from cli.py each run: exit statuses (conflict 1, invalid destination 1, "
+        "other 126, success 0, from the ordered except clauses and the exception hierarchy); the empty answer is ignore, "
+        "every non-empty prefix of an option name in any ASCII case selects that option, prefixes are unambiguous (first "
+        "letters distinct), anything else re-prompts; answering stop/ignore/override at the prompt is definitionally the "
+        "flag; a custom path is tried with override=False; ignore never yields the conflict outcome, stop yields it "
+        "without another call; an override rename puts exactly the source's identity and content at the destination. "
+        "The plan-level claims (stop only on a real conflict, ignore renames every free file, override keeps the source's "
+        "content) are evaluated on instrumented real runs with all strategies and scripted answers, compared with the model.",
+        "Trusted: Lean kernel; extraction by harness/extract.py; ASCII lower-casing; hand-written pipeline model tied by "
+        "sampled correspondence; the plan-level semantics of stop/ignore are decided by the oracle and by C02, not proved here.",
+        "DESIGN.md §7 C03",
+    ),
 }
 
 NOT_YET = "check not built yet in this snapshot of /verif (work in progress, see DESIGN.md §7)"
